@@ -10,24 +10,28 @@ Close Scope Z_scope.
    bodies of comms.task_completed_progress_bar, get_tasks_completed_progress_bar and the handler
    loop are read off the source. *)
 
-(* (1) the displayed count never decreases *)
+(* (1) the displayed count never decreases (sized and unsized inputs) *)
 Theorem C19_never_decreases :
-  forall n_jobs n l1 l2, shown (prun (pinit n_jobs n) l1) <= shown (prun (pinit n_jobs n) (l1 ++ l2)).
+  forall n_jobs n sized l1 l2, shown (prun (pinit n_jobs n sized) l1) <= shown (prun (pinit n_jobs n sized) (l1 ++ l2)).
 Proof. exact bar_monotone. Qed.
 Print Assumptions C19_never_decreases.
 
-(* (2) it never exceeds the number of items really processed, hence never the total *)
+(* (2) it never exceeds the number of items really processed, hence never the total; the displayed total, once
+   known, is the true number of items *)
 Theorem C19_never_exceeds :
-  forall n_jobs n l, let s := prun (pinit n_jobs n) l in shown s <= pexec s /\ pexec s <= n /\ total s = n.
+  forall n_jobs n sized l, let s := prun (pinit n_jobs n sized) l in
+  shown s <= pexec s /\ pexec s <= n /\ total s = n /\ (forall t, tshown s = Some t -> t = n /\ shown s <= t).
 Proof. exact bar_bounded. Qed.
 Print Assumptions C19_never_exceeds.
 
-(* (3) on completion it equals the total and the true number of items: when all n items are
-   processed and every worker has done its forced flush, the next handler round shows n *)
+(* (3) on completion it equals the total and the true number of items AND completion is signalled: when all n > 0
+   items are processed, every worker has done its forced flush and the total is known or announced (in whichever
+   order), the next handler round shows n of n and sets the signal the main process and the workers wait for --
+   also when everything had been displayed before the total of an unsized input became known *)
 Theorem C19_ends_at_total :
-  forall n_jobs n l, let s := prun (pinit n_jobs n) l in
-  pexec s = n -> Forall (fun x => x = 0) (loc s) ->
-  forall s', pstep s PHandler = Some s' -> shown s' = n /\ shown s' = total s'.
+  forall n_jobs n sized l, let s := prun (pinit n_jobs n sized) l in
+  0 < n -> pexec s = n -> Forall (fun x => x = 0) (loc s) -> (tshown s = Some n \/ upd s = true) ->
+  forall s', pstep s PHandler = Some s' -> shown s' = n /\ tshown s' = Some n /\ complete s' = true.
 Proof. exact bar_ends_at_total. Qed.
 Print Assumptions C19_ends_at_total.
 
@@ -43,6 +47,13 @@ Proof. exact (conj batching_spec (conj handler_spec (conj flush_spec zeroed_spec
 Print Assumptions C19_source_facts.
 
 Example C19_example :
-  let s := prun (pinit 2 3) [PTask 0 false; PHandler; PTask 1 true; PHandler; PTask 0 false; PForce 0; PForce 1; PHandler] in
-  (shown s, pexec s, loc s) = (3, 3, [0; 0]).
+  let s := prun (pinit 2 3 true) [PTask 0 false; PHandler; PTask 1 true; PHandler; PTask 0 false; PForce 0; PForce 1; PHandler] in
+  (shown s, pexec s, loc s, complete s) = (3, 3, [0; 0], true).
+Proof. vm_compute. reflexivity. Qed.
+
+(* the unsized input whose items were all displayed before the total became known (the history that hung before the
+   repair of the handler's shortcut): completion is signalled *)
+Example C19_unsized_example :
+  let s := prun (pinit 1 2 false) [PTask 0 true; PTask 0 true; PHandler; PSetTotal; PHandler] in
+  (shown s, tshown s, complete s) = (2, Some 2, true).
 Proof. vm_compute. reflexivity. Qed.
